@@ -120,7 +120,7 @@ func init() {
 					a = append(a, "setmax 0", "setmax 1", "setmax 2", "setmax 3", "setmax 5")
 				}
 				if cfg.Expiry != "" {
-					a = append(a, "adv 60", "adv 100", fmt.Sprintf("adv %d", tickNs), "sea 1 500")
+					a = append(a, "adv 60", "adv 100", fmt.Sprintf("adv %d", tickNs), "sea 1 500", "sea 2 9223372036854775807")
 				}
 				depth, budget := 4, 60
 				if thorough {
@@ -172,12 +172,15 @@ func init() {
 	// ---- C10: load outcomes vs state and results ----
 	plans["C10"] = func(thorough bool) []*Job {
 		var jobs []*Job
-		kinds := []string{"result-mismatch", "unsupplied-key-in-result", "loader-calls", "phantom-value", "missing-entry", "expired-observed", "event-missing", "wrong-cause", "unexpected-removal"}
+		// hook-mismatch: a load that installs over an absent or expired key is a creation ("a successful load caches the value":
+		// with the wrong calculator hook the installed entry is born expired or keeps a stale deadline)
+		kinds := []string{"result-mismatch", "unsupplied-key-in-result", "loader-calls", "phantom-value", "missing-entry", "expired-observed", "event-missing", "wrong-cause", "unexpected-removal", "hook-mismatch"}
 		cfgs := []CacheCfg{
 			{},
 			{Refresh: "writing", RefreshTTL: 40, ClockStart: 1 << 40},
 			{Expiry: "writing", TTL: 100, Refresh: "writing", RefreshTTL: 40, ClockStart: 1 << 40},
 			{MaxSize: 4, Expiry: "writing", TTL: 100, Refresh: "writing", RefreshTTL: 40, ClockStart: 1 << 40},
+			{Expiry: "creating", TTL: 100, Refresh: "creating", RefreshTTL: 40, ClockStart: 1 << 40},
 		}
 		var lists []string
 		ks := []int{1, 2, 3}
@@ -226,13 +229,21 @@ func init() {
 								pre = append(pre, fmt.Sprintf("set %d", i+1))
 							}
 						}
-						pre = append(pre, "adv 45")
-						for i, c := range st {
-							if c == 'f' {
-								pre = append(pre, fmt.Sprintf("set %d", i+1))
-							}
+						// 45: past every deadline; 40: the expired entries are exactly at their deadline (and the refresh-due ones
+						// exactly at their refresh time) when the loading call arrives
+						seconds := []int{45}
+						if cfg.Expiry == "creating" || cfg.MaxSize == 0 && cfg.Expiry == "writing" {
+							seconds = []int{45, 40}
 						}
-						prefixes = append(prefixes, pre)
+						for _, second := range seconds {
+							pp := append(append([]string{}, pre...), fmt.Sprintf("adv %d", second))
+							for i, c := range st {
+								if c == 'f' {
+									pp = append(pp, fmt.Sprintf("set %d", i+1))
+								}
+							}
+							prefixes = append(prefixes, pp)
+						}
 					}
 				}
 			}
@@ -249,7 +260,7 @@ func init() {
 	plans["C12"] = func(thorough bool) []*Job {
 		var jobs []*Job
 		// untruthful-expiration: an entry removed as expired before its deadline is not "visible exactly while the clock is before its expiration time"
-		kinds := []string{"deadline-mismatch", "deadline-wrapped", "refresh-deadline-mismatch", "invisible-before-deadline", "visible-at-deadline", "missing-entry", "hook-mismatch", "untruthful-expiration"}
+		kinds := []string{"deadline-mismatch", "deadline-wrapped", "refresh-deadline-mismatch", "invisible-before-deadline", "visible-at-deadline", "missing-entry", "hook-mismatch", "untruthful-expiration", "entry-mismatch"}
 		origins := []int64{0, 1, 1<<40 + 12345, 1_700_000_000_000_000_000, 1 << 62}
 		for _, origin := range origins {
 			durs := []int64{1, 2, 1 << 30, math.MaxInt64 - origin - 1, math.MaxInt64 - origin, math.MaxInt64/2 + 1, math.MaxInt64}
